@@ -96,6 +96,9 @@ func main() {
 			}
 		}
 	}
+	if prop == "C08" && (mode != "search" || os.Getenv("VERIF_LIFECYCLE") != "") {
+		lifecycleHistory(seed, rep)
+	}
 	for i := 0; i < n; i++ {
 		hseed := seed*1_000_003 + int64(i)
 		avoid := i%3 == 0 // a third of the histories avoid the triggers of the known findings
@@ -213,7 +216,30 @@ func scripted() []script {
 		{"C04", "inbound bridge call fails: the deposit is handed to the refund address (regression of fixed C04-3)", sp, []Op{
 			{K: "BridgeCallIn", C: 1, A: cBad, B: 100, To: cBad, Toks: [][2]int64{{0, 500}}, Flag: false},
 		}},
+		{"C04 C01", "inbound bridge calls whose receiving contract re-enters executeClaim for the claim being executed", sp, []Op{
+			{K: "BridgeCallIn", C: 1, A: cRe, B: 100, To: cRe, Toks: [][2]int64{{1, 1000}}, Flag: true},
+			{K: "BridgeCallIn", C: 1, A: cRe, B: 101, To: cRe, Toks: [][2]int64{{0, 300}}, Flag: true},
+			{K: "SendToFx", C: 1, T: 1, A: 100, X: 700},
+			{K: "BridgeCallIn", C: 2, A: cRe, B: cRe, To: cRe, Toks: [][2]int64{{1, 250}}, Flag: true},
+			{K: "SendToExternal", C: 1, T: 1, A: 100, X: 600, Y: 2},
+		}},
+		{"C04 C01", "scale: a deposit left unexecuted while 103 further events of its chain are observed, executed afterwards", sp, parkedOps()},
 	}
+}
+
+// parkedOps: one observed deposit is not executed; more than MaxKeepEventSize (100) further events of the same chain are
+// observed (tiny deposits executed at once, and bare observations), attestation pruning runs on each; then the first deposit
+// is executed and withdrawn again
+func parkedOps() []Op {
+	ops := []Op{{K: "SendToFx", C: 1, T: 1, A: 100, X: 1000, Park: true}}
+	for i := 0; i < 103; i++ {
+		if i%3 == 0 {
+			ops = append(ops, Op{K: "SendToFx", C: 1, T: 1, A: 101 + i%2, X: int64(1 + i%5)})
+		} else {
+			ops = append(ops, Op{K: "ObserveJump", C: 1, X: 0})
+		}
+	}
+	return append(ops, Op{K: "ExecParked", C: 1}, Op{K: "SendToExternal", C: 1, T: 1, A: 100, X: 990, Y: 10})
 }
 
 // zeroOps: amounts / fees of 0 through every entry point (most are refused by ValidateBasic or by the keepers; some are
@@ -359,6 +385,13 @@ func execHistory(c *lib.Chain, h *History, r *lib.Rand, fixed []Op, rep *lib.Rep
 			}
 		}
 	}
+	// every deposit still parked at the end of the history must be executable
+	for len(w.parked) > 0 {
+		o := Op{K: "ExecParked", C: w.parked[0].C, ID: w.parked[0].ID}
+		pre := mon.before(o)
+		subs := w.perform(&o, record, mon)
+		mon.after(o, pre, subs)
+	}
 	key := ""
 	for _, s := range h.Steps {
 		key += s.Op.K[:2] + map[bool]string{true: "+", false: "-"}[s.OK]
@@ -442,6 +475,8 @@ type perfResult struct {
 	ok       bool
 	err      error
 	executed bool // the value-moving part (exec of the pending claim) ran and succeeded
+	observed bool // this operation's deposit claim became observed now (executed or not)
+	parked   bool // the executed / refused claim had been parked by an earlier operation
 }
 
 // perform executes one generated operation; composite real operations (observe + execute) are recorded as the
@@ -483,14 +518,32 @@ func (w *World) perform(o *Op, record func(Op, error), mon *Monitor) perfResult 
 		})
 		if !ok {
 			record(Op{K: "Observe", C: c, H: int64(h)}, obsFail)
+			mon.obsH = h
 			mon.refundRefused(*o, "observe")
 			return perfResult{}
 		}
 		record(Op{K: "Observe", C: c, H: int64(h)}, nil)
 		o.ID = int64(n)
+		if o.Park { // observed, not executed: the application keeps the claim in its pending-execute store
+			w.parked = append(w.parked, *o)
+			return perfResult{ok: true, observed: true}
+		}
 		err := w.Exec(o)
 		record(*o, err)
-		return perfResult{ok: err == nil, err: err, executed: err == nil}
+		return perfResult{ok: err == nil, err: err, executed: err == nil, observed: true}
+	case "ExecParked":
+		// execute a claim parked earlier (ID = its event nonce, 0 = the oldest parked claim of the chain)
+		for i, p := range w.parked {
+			if p.C == c && (o.ID == 0 || p.ID == o.ID) {
+				w.parked = append(w.parked[:i:i], w.parked[i+1:]...)
+				p.Park = false
+				*o = p
+				err := w.Exec(o)
+				record(*o, err)
+				return perfResult{ok: err == nil, err: err, executed: err == nil, parked: true}
+			}
+		}
+		return perfResult{} // nothing parked: no operation
 	case "ObserveJump":
 		// X: 0 = +1, 1 = beyond the earliest batch timeout, 2 = beyond the earliest bridge-call timeout
 		h := nextH()
@@ -523,6 +576,7 @@ func (w *World) perform(o *Op, record func(Op, error), mon *Monitor) perfResult 
 		oo := Op{K: "Observe", C: c, H: int64(h)}
 		if !ok {
 			record(oo, obsFail)
+			mon.obsH = h
 			mon.refundRefused(oo, "timeout")
 			return perfResult{}
 		}
@@ -554,6 +608,7 @@ func (w *World) perform(o *Op, record func(Op, error), mon *Monitor) perfResult 
 		})
 		if !ok {
 			record(Op{K: "Observe", C: c, H: int64(h)}, obsFail)
+			mon.obsH = h
 			mon.refundRefused(*o, "observe")
 			return perfResult{}
 		}
@@ -578,6 +633,9 @@ func (w *World) perform(o *Op, record func(Op, error), mon *Monitor) perfResult 
 			contracts = append(contracts, ca)
 			amounts = append(amounts, sdkmath.NewInt(p[1]))
 		}
+		if o.To == cRe {
+			w.armReentrant(c, w.nonce[c]+1, o.Toks)
+		}
 		n, ok := w.observe(c, h, func(n, h uint64) crosschaintypes.ExternalClaim {
 			return &crosschaintypes.MsgBridgeCallClaim{EventNonce: n, BlockHeight: h, Sender: lib.ExternalAccount(w.C.Seed, chainName(c), 4),
 				Refund: w.extAddr(c, o.B), TokenContracts: contracts, Amounts: amounts, To: w.extAddr(c, o.To), Data: "", Value: sdkmath.ZeroInt(),
@@ -585,6 +643,7 @@ func (w *World) perform(o *Op, record func(Op, error), mon *Monitor) perfResult 
 		})
 		if !ok {
 			record(Op{K: "Observe", C: c, H: int64(h)}, obsFail)
+			mon.obsH = h
 			mon.refundRefused(*o, "observe")
 			return perfResult{}
 		}
@@ -592,7 +651,7 @@ func (w *World) perform(o *Op, record func(Op, error), mon *Monitor) perfResult 
 		o.H = int64(n)
 		err := w.Exec(o)
 		record(*o, err)
-		return perfResult{ok: err == nil, err: err, executed: err == nil}
+		return perfResult{ok: err == nil, err: err, executed: err == nil, observed: true}
 	}
 	err := w.Exec(o)
 	record(*o, err)
